@@ -210,6 +210,8 @@ func (it *Interp) Apply(op *Op) {
 		return
 	case "probe":
 		it.opProbe(op)
+	case "queryDeadTarget":
+		it.opQueryDeadTarget(op)
 	case "register":
 		it.opRegister(op)
 	case "batchCall":
